@@ -27,7 +27,7 @@ Lemma send_spec ex lpos dir rpos lo hi : backup_decide ex lpos dir rpos = BSend 
   (forall t, lo <= t <= hi -> exists f, open_ltx dir t = Some f).
 Proof.
   unfold backup_decide, max_batch. destruct ex; cbn [negb]; [|destruct (is_zero rpos); discriminate].
-  destruct (is_zero lpos); [discriminate|]. destruct (is_zero rpos); [discriminate|].
+  destruct (is_zero lpos && is_zero rpos); [discriminate|]. destruct (is_zero rpos); [discriminate|].
   destruct (N.ltb_spec (fst lpos) (fst rpos)); [discriminate|].
   destruct (N.eqb_spec (fst rpos) (fst lpos)); [destruct (_ =? _); discriminate|].
   destruct (have_range _ _ _) eqn:Hr; [|discriminate]. intros Hinv; inversion Hinv; subst. clear Hinv.
@@ -35,13 +35,13 @@ Proof.
 Qed.
 (* the service is ahead, has another checksum at the same TXID, or a needed file is gone: restore, never send *)
 Lemma restore_cases ex lpos dir rpos :
-  ex = true -> is_zero lpos = false -> is_zero rpos = false ->
+  ex = true -> is_zero rpos = false ->
   (fst lpos < fst rpos -> backup_decide ex lpos dir rpos = BRestore 2) /\
   (fst rpos = fst lpos -> snd rpos <> snd lpos -> backup_decide ex lpos dir rpos = BRestore 3) /\
   (fst rpos < fst lpos -> (exists t, fst rpos < t <= N.min (fst lpos) (fst rpos + max_batch) /\ open_ltx dir t = None) ->
      backup_decide ex lpos dir rpos = BRestore 4).
 Proof.
-  intros -> Hl Hr. unfold backup_decide. cbn [negb]. rewrite Hl, Hr. repeat split.
+  intros -> Hr. unfold backup_decide. cbn [negb]. rewrite Hr, andb_false_r. repeat split.
   - intros H. destruct (N.ltb_spec (fst lpos) (fst rpos)); [reflexivity|lia].
   - intros H1 H2. destruct (N.ltb_spec (fst lpos) (fst rpos)); [lia|]. rewrite H1, N.eqb_refl.
     destruct (N.eqb_spec (snd rpos) (snd lpos)); [contradiction|reflexivity].
@@ -49,6 +49,12 @@ Proof.
     destruct (N.eqb_spec (fst rpos) (fst lpos)); [lia|].
     destruct (have_range _ _ _) eqn:E; [|reflexivity]. exfalso.
     destruct (have_range_spec _ _ _ E t) as [f Hf]; [lia|congruence].
+Qed.
+
+Lemma empty_local_adopts dir rpos : 0 < fst rpos -> backup_decide true (0, 0) dir rpos = BRestore 2.
+Proof.
+  intros H. apply (proj1 (restore_cases true (0, 0) dir rpos eq_refl
+    ltac:(unfold is_zero; destruct (N.eqb_spec (fst rpos) 0) as [E|E]; [rewrite E in H; inversion H|reflexivity]))). exact H.
 Qed.
 
 (* ---------- the service only ever grows by contiguous files ---------- *)
